@@ -212,6 +212,43 @@ def prune_cache(max_age_s=2 * 86400):
 
 
 # --------------------------------------------------------------------------------------------
+# Change-directed escalation (DESIGN 2.4): never a verdict, only a bigger budget
+# --------------------------------------------------------------------------------------------
+
+FINGERPRINTS = os.path.join(LEAN_DIR, "fingerprints.json")
+
+
+def _norm_source(txt):
+    txt = re.sub(r"/\*.*?\*/", " ", txt, flags=re.S)
+    txt = re.sub(r"//[^\n]*", " ", txt)
+    return re.sub(r"\s+", " ", txt).strip()
+
+
+def source_fingerprints(repo=None):
+    repo = repo or REPO
+    root = os.path.join(repo, "src", "oomd")
+    out = {}
+    for d, _, fs in sorted(os.walk(root)):
+        for f in sorted(fs):
+            if f.endswith((".cpp", ".h")) and not f.endswith("Test.cpp") and "fixtures" not in d:
+                p = os.path.join(d, f)
+                out[os.path.relpath(p, repo)] = sha(_norm_source(open(p, errors="replace").read()))[:20]
+    return out
+
+
+def changed_sources():
+    """source files of REPO whose text (comments and white space aside) differs from the tree the models were last shown
+    to agree with (lean/fingerprints.json, written by tools/fingerprint.py --update).  Used only to spend the `search`
+    generator budget in the quick tier on a tree that has been edited."""
+    try:
+        base = json.load(open(FINGERPRINTS))
+    except Exception:
+        return []
+    cur = source_fingerprints()
+    return sorted(f for f in set(base) | set(cur) if base.get(f) != cur.get(f))
+
+
+# --------------------------------------------------------------------------------------------
 # Lean side
 # --------------------------------------------------------------------------------------------
 
@@ -597,6 +634,70 @@ def bad_outcome(t):
     return oc not in ("ok", "exit0")
 
 
+def extra_pass(prop, engine, harness, flavour, scs, tier, seed, want=None, shrink_candidates=None, label="extra"):
+    """A second correspondence pass of a property on another engine (e.g. C07's deadline clauses on the real Ruleset, C17's
+    return-value clause on the kill plugins with prekill hooks).  `want(clause)` selects which violated clauses of that
+    engine's driver belong to this property (the others are the subject of the property that owns the engine).
+    Returns ([(class, replay path)], coverage counts)."""
+    class _M:
+        PROP = prop
+        ENGINE = engine
+        HARNESS = harness
+        FLAVOUR = flavour
+    ok, failed, out = lake_build(["drv_" + engine], translate=False)
+    if not ok or not os.path.exists(driver_path(engine)):
+        raise InfraError("drv_%s could not be built: %s" % (engine, failed))
+    exe = build_harness(harness, flavour)
+    ck = Check(_M, tier, seed)
+    for i, s in enumerate(scs):
+        s.setdefault("id", "%s-%s-s%d-%d" % (prop, label, seed, i))
+    res = ck.execute(exe, scs)
+
+    def clauses(t, v):
+        if bad_outcome(t):
+            return ["outcome:" + t.get("outcome", "?")]
+        return [c for c in (v.get("violated") or []) if want is None or want(c)]
+    failing = [(s, t, v) for (s, t, v) in res if clauses(t, v)]
+    cov = {label + "_pass_scenarios": len(res), label + "_pass_failures": len(failing)}
+    viol = []
+    by = {}
+    for s, t, v in failing:
+        by.setdefault(clauses(t, v)[0], []).append((s, t, v))
+    for c, items in sorted(by.items()):
+        items.sort(key=lambda x: len(json.dumps(x[0])))
+        s, t, v = items[0]
+        cur, improved, t0 = s, bool(shrink_candidates), time.time()
+        while improved and time.time() - t0 < 60:
+            improved = False
+            cands = []
+            for i, cnd in enumerate(shrink_candidates(cur)):
+                cands.append(dict(cnd, id="shr-%d" % i))
+                if len(cands) >= 64:
+                    break
+            for (cs, ct, cv) in (ck.execute(exe, cands) if cands else []):
+                if c in clauses(ct, cv):
+                    cur, improved = cs, True
+                    break
+        if cur is not s:
+            (s, t, v) = ck.execute(exe, [cur])[0]
+        rp = ck.write_replay("%s-%d-%s.json" % (prop, seed, re.sub(r"[^A-Za-z0-9_.-]", "_", c.replace(prop + ".", ""))[:60]),
+                             {"property": prop, "class": c, "kind": "failing-input", "engine": harness, "pass": label,
+                              "count": len(items), "scenario": s, "impl_trace": t, "verdict": v})
+        viol.append((c, rp))
+    return viol, cov, res
+
+
+def merge_extra_into_evidence(prop, cov, n_viol, rule_text):
+    evp = os.path.join(EVIDENCE_DIR, prop + ".json")
+    ev = json.load(open(evp))
+    ev["coverage"].update(cov)
+    ev["coverage"]["rule"] = ev["coverage"].get("rule", "") + " || " + rule_text
+    ev["coverage"]["evaluations"] += sum(v for k, v in cov.items() if k.endswith("_pass_scenarios"))
+    ev["violations"] = ev.get("violations", 0) + n_viol
+    with open(evp, "w") as f:
+        json.dump(ev, f, indent=1)
+
+
 def run_check(mod, tier, seed, replay=None):
     ck = Check(mod, tier, seed)
     prop = ck.prop
@@ -648,6 +749,11 @@ def run_check(mod, tier, seed, replay=None):
     else:
         scs = ck.corpus()
         gen = list(mod.gen(rng, tier))
+        changed = changed_sources()
+        if changed and tier == "quick" and not os.environ.get("VERIF_NO_ESCALATION"):
+            # the tree differs from the one the model was validated against: also spend the search budget
+            gen += list(mod.gen(random.Random(seed * 31 + 5), "search"))
+            ck.notes.append("escalated (quick + search budget): sources changed since the last validated tree: " + ", ".join(changed[:8]))
         seen = set()
         for i, s in enumerate(gen):
             s.setdefault("id", "%s-s%d-%d" % (prop, seed, i))
